@@ -58,7 +58,7 @@ STEP_CHOICES = [1, 1, 2, 3, 10, 100, 999, 1000, 1000, 1001, 5000, 60000, 3600000
 
 
 def chunks(tier, seed):
-    n = 1200 if tier == "quick" else 12000
+    n = 2500 if tier == "quick" else 40000
     return [{"key": "r%d" % k, "n": n} for k in range(NCHUNK)]
 
 
